@@ -3,11 +3,16 @@
 From Coq Require Import List Arith Bool ZArith.
 From PV Require Import Base.Exn Base.Values Base.Ann Model.CheckerCfg Model.Checker Spec.Conforms Gen.CheckerTables
   Model.CheckerEval.
-From PV Require Import Model.GenericInstance Spec.TypeVarSpec.
+From PV Require Import Model.GenericInstance Spec.TypeVarSpec Model.TypeVarShapeCfg Gen.TypeVarShape.
 Import ListNotations.
 Open Scope Z_scope.
 
 Definition cfg0 := Gen.CheckerTables.checker_cfg.
+
+(* a class that is generic by inheritance only (class Sub(Base[int, T])): treated as generic iff
+   is_instance_of_generic_class looks at __parameters__ (regenerated flag) *)
+Definition kind_gensub (ids : list nat) : clskind :=
+  if sh_generic_by_parameters Gen.TypeVarShape.tv_shape_gen then KGeneric ids else KPedantic.
 
 Definition enc_sres (r : sres) : Z :=
   match r with ROk => 0 | RExn e => enc_exn e | RAbsent => 9 end.
